@@ -100,15 +100,24 @@ def explore(run_one, max_preempt: int, max_runs: int = 1_000_000):
 # ----------------------------------------------------------------------
 # source-line scheduling points
 # ----------------------------------------------------------------------
-def make_line_tracer(sched: simrt.Scheduler, studied: dict, call_boundaries: bool = True):
+def make_line_tracer(sched: simrt.Scheduler, studied: dict, call_boundaries: bool = True,
+                     line_filter: dict | None = None, call_names=None):
     """studied: {code object: name}.  Virtual threads yield before every source line of the
-    studied functions (and, optionally, at calls made from them and on return)."""
+    studied functions (restricted to line_filter[code] if given) and, optionally, at calls made
+    from those lines (restricted to callee names in call_names) and on return.  Yields only
+    while sched.tracing is true, so long-running frames can be traced from their start."""
+    sched.tracing = getattr(sched, "tracing", True)
 
     def local(frame, event, arg):
+        if not sched.tracing:
+            return local
+        code = frame.f_code
         if event == "line":
-            sched.yield_now(("line", studied[frame.f_code], frame.f_lineno))
-        elif event == "return" and call_boundaries:
-            sched.yield_now(("return", studied[frame.f_code], frame.f_lineno))
+            lf = line_filter.get(code) if line_filter else None
+            if lf is None or frame.f_lineno in lf:
+                sched.yield_now(("line", studied[code], frame.f_lineno))
+        elif event == "return" and call_boundaries and not line_filter:
+            sched.yield_now(("return", studied[code], frame.f_lineno))
         return local
 
     def glob(frame, event, arg):
@@ -117,10 +126,13 @@ def make_line_tracer(sched: simrt.Scheduler, studied: dict, call_boundaries: boo
         code = frame.f_code
         if code in studied:
             return local
-        if call_boundaries:
+        if call_boundaries and sched.tracing:
             back = frame.f_back
             if back is not None and back.f_code in studied:
-                sched.yield_now(("call", studied[back.f_code], back.f_lineno))
+                if call_names is None or code.co_name in call_names:
+                    lf = line_filter.get(back.f_code) if line_filter else None
+                    if lf is None or back.f_lineno in lf:
+                        sched.yield_now(("call", studied[back.f_code], back.f_lineno))
         return None
 
     return glob
